@@ -20,6 +20,7 @@
     interpolation saturates at the last *rectified* beat).  No proofs here. *)
 From Coq Require Import ZArith List Bool.
 From NS Require Import Base.Sx Base.NoteSeq.
+From NS Require Gen.G02 Model.Extract.     (* C02's constants and model, used qualified (read-only) *)
 Import ListNotations.
 Local Open Scope Z_scope.
 
@@ -192,12 +193,15 @@ Definition concatenate (ss : list seq) (ds : list Z) : res seq :=
 
 (** What [extract_subsequence(seq, 0, d)] does to one window [0, d), for the
     fields modelled here (derived from _extract_subsequences with
-    split_times = [0, d]; control changes are not modelled):
+    split_times = [0, d]):
       - notes in start order (stable), those with 0 <= start < d, end clipped to d;
       - tempo / time signature / key / chord symbol: the last event at time <= 0
         (re-timed to 0) followed by the events with 0 < time < d, in time order;
       - beats with 0 <= time < d appended after the chord symbols; other text dropped;
-      - pitch bends deleted; section annotations copied; total_time = last clipped end. *)
+      - control changes: C02's pedal pass (Model/Extract.v) reused as is;
+      - pitch bends deleted; section annotations copied; total_time = last clipped end.
+    Proofs/TimeOpsExtract.v proves that [window] IS C02's [extract_subsequence _ 0 d]
+    (all fields, subsequence_info cleared). *)
 Definition window_notes (d : Z) (l : list note) : list note :=
   map (fun n => note_with_times n (n_start n) (Z.min (n_end n) d))
       (filter (fun n => (0 <=? n_start n) && (n_start n <? d)) (sort_by n_start l)).
@@ -224,7 +228,9 @@ Definition window (d : Z) (s : seq) : res seq :=
               (window_state tx_time text_t d (filter (fun t => tx_type t =? ANN_CHORD_SYMBOL) (s_texts s))
                ++ filter (fun t => (0 <=? tx_time t) && (tx_time t <? d))
                          (sort_by tx_time (filter (fun t => tx_type t =? ANN_BEAT) (s_texts s))))
-              []                                     (* control changes: not modelled *)
+              (* control changes: the pedal pass is C02's model of it, on the split vector [0; d]
+                 (pedals = the preserved control numbers regenerated from the code; others dropped) *)
+              (nth 0 (Extract.pedal_pieces [0; d] (Extract.pedals_of G02.DEFAULT_PRESERVE s)) [])
               [] (s_sects s)
               (max_end ns) (s_qsteps s) (s_spq s) (s_sps s)
               (0, 0)                                 (* trimmed.ClearField('subsequence_info') *)
@@ -250,6 +256,44 @@ Definition repeat_to_duration (s : seq) (d : Z) (osd : option Z) : res seq :=
       | Ok c => window d c
       end
   end.
+
+(** * The rest of the message under concatenation
+
+    What [MergeFrom] + [remove_redundant_data] do to the fields outside the
+    eight event lists (the opaque [s_rest] of one sequence, opened up): proto3
+    merge = a scalar is overwritten by a non-default value, repeated fields are
+    appended, sub-messages merge field by field; then sequence_metadata.composers
+    and .genre lose their repeats (first occurrence kept).  Strings are small
+    integers chosen by the harness (0 = empty). *)
+Record meta := mkMeta {
+  m_scalars : list Z;            (* id, filename, reference_number, collection_name, source_info.parser,
+                                    source_info.encoding_type, sequence_metadata.title, .artist *)
+  m_composers : list Z; m_genres : list Z;
+  m_instr : list (list Z); m_parts : list (list Z); m_groups : list (list Z) }.
+                                 (* instrument_infos, part_infos, section_groups as rows of integers *)
+
+Fixpoint merge_scalars (a b : list Z) : list Z :=
+  match a, b with
+  | x :: a', y :: b' => merge_z x y :: merge_scalars a' b'
+  | [], _ => b
+  | _, [] => a
+  end.
+
+Fixpoint nodup_z (seen : list Z) (l : list Z) : list Z :=
+  match l with
+  | [] => []
+  | x :: r => if existsb (Z.eqb x) seen then nodup_z seen r else x :: nodup_z (x :: seen) r
+  end.
+
+Definition merge_meta (a b : meta) : meta :=
+  mkMeta (merge_scalars (m_scalars a) (m_scalars b)) (m_composers a ++ m_composers b)
+         (m_genres a ++ m_genres b) (m_instr a ++ m_instr b) (m_parts a ++ m_parts b)
+         (m_groups a ++ m_groups b).
+
+Definition concat_meta (ms : list meta) : meta :=
+  let m := fold_left merge_meta ms (mkMeta [] [] [] [] [] []) in
+  mkMeta (m_scalars m) (nodup_z [] (m_composers m)) (nodup_z [] (m_genres m))
+         (m_instr m) (m_parts m) (m_groups m).
 
 (** * adjust_notesequence_times *)
 
